@@ -726,3 +726,12 @@ package readline
 //@ final macro.Engine.keys props C01 C18
 //@ final macro.Engine.hint props C01 C18
 //@ final inputrc.Config.Vars props C01 C12
+//@ final editor.Buffers.num props C01 C16 C17
+//@ final editor.Buffers.alpha props C01 C16 C17
+//@ final editor.Buffers.ro props C01 C16 C17
+//@ final history.Sources.lines props C01 C07 C09
+//@ final completion.Engine.keymap props C01 C14 C15
+//@ final completion.Engine.hint props C01 C14 C15
+//@ final completion.Engine.config props C01 C14 C15
+//@ final keymap.Engine.commands props C01 C03
+//@ final macro.Engine.macros props C01 C18
